@@ -135,7 +135,8 @@ def _impl_key(header):
     m = re.match(r'(.*?)\s+for\s+(.*)$', h)
     if m:
         trait, h = m.group(1).replace(' ', ''), m.group(2)
-    ident = re.match(r'\s*&?\s*([A-Za-z_][A-Za-z0-9_]*)', h).group(1)
+    im = re.match(r'\s*&?\s*([A-Za-z_][A-Za-z0-9_]*)', h)
+    ident = im.group(1) if im else re.sub(r'\s+', '', h)      # e.g. `[u8; N]`, `&[u8]`
     return trait, ident
 
 
